@@ -109,6 +109,9 @@ func c02Check(c *core.Ctx, cs c02Case) {
 	}
 	sawError := false
 	for round := 0; round < 2; round++ {
+		if round > 0 {
+			ip.ResetVars() // variables start over; caches (regexes, formats) and buffers carry over
+		}
 		cfg := cs.config()
 		o := run.Exec(prog, cfg, run.Opts{StepLimit: 400000, Interp: ip})
 		c.Eval(1)
@@ -182,8 +185,16 @@ func c02Hostile(rng *rand.Rand) c02Case {
 		t = strings.ReplaceAll(t, "%M", pickN())
 	} else {
 		t = c02StrTemplates[rng.Intn(len(c02StrTemplates))]
-		t = strings.ReplaceAll(t, "%S", pickS())
-		t = strings.ReplaceAll(t, "%T", pickS())
+		s1, s2 := pickS(), pickS()
+		if strings.Contains(t, "sub(") || strings.Contains(t, "x x") {
+			// a 64 KiB operand in a substitution that is repeated per record multiplies the
+			// subject each time (allocation chosen by the script, not a crash): keep it out
+			for s1 == "big" || s2 == "big" {
+				s1, s2 = pickS(), pickS()
+			}
+		}
+		t = strings.ReplaceAll(t, "%S", s1)
+		t = strings.ReplaceAll(t, "%T", s2)
 	}
 	t = strings.ReplaceAll(t, "%%", "%")
 	pre := "big = \"ab\"; for (i = 0; i < 15; i++) big = big big; "
